@@ -217,7 +217,15 @@ func cmdCheck(args []string) {
 	for _, r := range v.Regions {
 		if r.Status == "covered" && !knownPrinted[r.Name] {
 			knownPrinted[r.Name] = true
-			line := fmt.Sprintf("KNOWN-FINDING: property=%s %s %s", *prop, r.Name, strings.Join(r.Notes, "; "))
+			// (the property the finding is recorded under: in the thorough tier a clause is
+			// also checked when its function is listed for another property)
+			kp := *prop
+			for _, k := range v.Known {
+				if k.Status == "known" && k.Obligation == r.Name {
+					kp = k.Property
+				}
+			}
+			line := fmt.Sprintf("KNOWN-FINDING: property=%s %s %s", kp, r.Name, strings.Join(r.Notes, "; "))
 			knownLines = append(knownLines, line)
 			fmt.Println(line)
 		}
